@@ -123,4 +123,11 @@ def pyCopyObjC20b (x : PVal) : PyM PVal :=
     else pyCopy x
   | _ => pyCopyC20b x
 
+/-- `HTML(x)`: `mkHTML` (`UserString.__init__`: `str(x)`), except that `UserString` keeps a `str` instance — also an instance
+    of a subclass such as `jsx` — as its `data` as it is, which the universe does not have: `unsupported` for a `jsx` string -/
+def mkHTMLC20b (x : PVal) : PyM PVal :=
+  match jsxText? x with
+  | some _ => throw .unsupported
+  | Option.none => mkHTML x
+
 end HtmlVerif.Py
